@@ -68,7 +68,8 @@ def iter_artifactkit_payloads(
             hints = fobj.read(8)
             # never ask for more than the file holds, a regular file allocates the requested size up front
             data_offset = fobj.tell()
-            remaining = max(fobj.seek(0, io.SEEK_END) - data_offset, 0)
+            fobj.seek(0, io.SEEK_END)  # (not every file-like object returns the new position, mmap does not)
+            remaining = max(fobj.tell() - data_offset, 0)
             fobj.seek(data_offset)
             data = fobj.read(min(size, remaining))
             payload = utils.xor(data, xorkey)
